@@ -68,7 +68,7 @@ var props = map[string]*propSpec{
 		Level: "fault_enumeration",
 		Rule: "per baseline (seeded configuration x workload of 1-5 RPCs in assorted phases x schedule) the fault-free run reports its N carrier frames; then each of 6 termination causes (channel Close, cancel / expiry of the opening context, Stop, GracefulStop+Stop, carrier failure) is injected at frame boundary k (thorough: every k in 1..N; quick: a stratified sample) and the run is driven to final quiescence (all timers fired); plus fully random placements; plus a variant in which a second channel was started from the same pending channel and must outlive the Close of the first; " +
 			"non-trivial = the tunnel ended while at least one RPC was in flight; distinct = distinct schedule digests",
-		Families:       []famPlan{{Family: "teardown", Weight: 3, Enum: true, EnumCauses: 6, EnumQuick: 10}, {Family: "teardown", Weight: 1}, {Family: "teardown", Weight: 1, Param: map[string]int{"sibling": 1, "cause": 0}}},
+		Families:       []famPlan{{Family: "teardown", Weight: 3, Enum: true, EnumCauses: 6, EnumQuick: 10}, {Family: "teardown", Weight: 1}, {Family: "teardown", Weight: 1, Param: map[string]int{"sibling": 1, "cause": 0}}, {Family: "teardown", Weight: 1, Param: map[string]int{"fromhandler": 1, "cause": 3}}},
 		QuickBudget:    55 * time.Second,
 		ThoroughBudget: 20 * time.Minute,
 	},
@@ -114,10 +114,10 @@ var props = map[string]*propSpec{
 	},
 	"C10": {
 		Level: "fault_enumeration",
-		Rule: "per baseline (configuration x 0-3 in-flight RPCs kept open by handler sleeps x schedule) the fault-free run reports its N frames; graceful shutdown (InitiateShutdown / GracefulStop in its own goroutine) is then initiated at every frame boundary k (thorough; quick: stratified sample), 1-4 further RPCs are attempted afterwards (directly and through the pooled channel), the run is driven to final quiescence, then Stop is called; multistop variants: a second GracefulStop call while the first is pending, 1-3 overlapping Stop calls, and (teardown family) Stop / GracefulStop+Stop at a random frame with RPCs in flight, followed by a Serve call on the stopped server, which must be refused and leave nothing behind - every single call is judged (Stop: every Serve returned and every handler ended or cancelled before it returns; GracefulStop: the RPCs in flight at the call have finished before it returns); " +
+		Rule: "per baseline (configuration x 0-3 in-flight RPCs kept open by handler sleeps x schedule) the fault-free run reports its N frames; graceful shutdown (InitiateShutdown / GracefulStop in its own goroutine) is then initiated at every frame boundary k (thorough; quick: stratified sample), 1-4 further RPCs are attempted afterwards (directly and through the pooled channel), the run is driven to final quiescence, then Stop is called; multistop variants: a second GracefulStop call while the first is pending, 1-3 overlapping Stop calls, and (teardown family) Stop / GracefulStop+Stop at a random frame with RPCs in flight, followed by a Serve call on the stopped server, which must be refused and leave nothing behind, and Stop called by a handler that this very server is running - every single call is judged (Stop: every Serve returned and every handler ended or cancelled before it returns; GracefulStop: the RPCs in flight at the call have finished before it returns); " +
 			"non-trivial = shutdown was initiated while at least one RPC was in flight; distinct = distinct schedule digests",
 		Families: []famPlan{{Family: "graceful", Weight: 3, Enum: true, EnumCauses: 2, EnumQuick: 12}, {Family: "graceful", Weight: 1}, {Family: "graceful", Weight: 1, Param: map[string]int{"multistop": 1}},
-			{Family: "teardown", Weight: 1, Param: map[string]int{"multistop": 1, "cause": 3}}, {Family: "teardown", Weight: 1, Param: map[string]int{"multistop": 1, "cause": 4}}},
+			{Family: "teardown", Weight: 1, Param: map[string]int{"multistop": 1, "cause": 3}}, {Family: "teardown", Weight: 1, Param: map[string]int{"multistop": 1, "cause": 4}}, {Family: "teardown", Weight: 1, Param: map[string]int{"fromhandler": 1, "cause": 3}}},
 		QuickBudget:    55 * time.Second,
 		ThoroughBudget: 20 * time.Minute,
 	},
